@@ -23,7 +23,10 @@
                     scheduled);
      * Swap       — complete_compaction(srcs, tgt) followed by
                     schedule_deletion of every source (compact_l0/compact_level);
-     * Persist / Restart / Load — pending-deletions.json;
+     * PersistSnap / PersistPut — persist_pending_deletions: the list is
+                    serialised first (no await up to here since the retention
+                    pass), the PUT of those bytes is a separate request;
+     * Restart / Load — new Compactor, load_pending_deletions;
      * QGet / QStale / QPin / QRead / QUnpin — a query: chunk list from the
                     catalog (fresh or stale view), pin, read, guard drop;
      * Tick       — the only way time advances (never backwards).
@@ -62,6 +65,7 @@ Record st := mkSt {
   ever : list path;                 (* ghost: every path ever registered or scheduled *)
   pending : list (path * Z);        (* Compactor::pending_deletions (volatile): path, scheduled_at *)
   disk : list (path * Z);           (* <tenant>/metadata/pending-deletions.json ([] = absent) *)
+  psnap : list (path * Z);          (* bytes serialised by persist_pending_deletions, PUT not yet done *)
   pins : list path;                 (* ChunkPinRegistry as a multiset *)
   objs : list path;                 (* data files present in the object store *)
   gc_active : bool;                 (* a GC pass is between its filter and its retain *)
@@ -75,7 +79,7 @@ Record st := mkSt {
 }.
 
 Definition init (t0 : Z) : st :=
-  mkSt t0 [] [] [] [] [] [] false [] [] 0 [] [] [] [].
+  mkSt t0 [] [] [] [] [] [] [] false [] [] 0 [] [] [] [].
 
 (* ---------- small list helpers ---------- *)
 Fixpoint remove1 (x : N) (l : list N) : list N :=
@@ -133,7 +137,8 @@ Inductive label :=
 | GcEnd
 | GcAtomic
 | Retention
-| Persist
+| PersistSnap
+| PersistPut
 | Restart
 | Load
 | QGet (q : N) (s e : Z)
@@ -144,23 +149,23 @@ Inductive label :=
 
 (* field updates, written out (no record-update syntax in plain Coq) *)
 Definition with_now (s : st) (v : Z) : st :=
-  mkSt v (cat s) (ever s) (pending s) (disk s) (pins s) (objs s) (gc_active s) (gcsel s) (gcall s)
+  mkSt v (cat s) (ever s) (pending s) (disk s) (psnap s) (pins s) (objs s) (gc_active s) (gcsel s) (gcall s)
        (gc_cutoff s) (queries s) (dlog s) (rlog s) (qlog s).
 Definition with_cat_sched (s : st) (c : list (path * (Z * Z))) (ev : list path) (pe : list (path * Z))
            (rl : list retev) : st :=
-  mkSt (now s) c ev pe (disk s) (pins s) (objs s) (gc_active s) (gcsel s) (gcall s)
+  mkSt (now s) c ev pe (disk s) (psnap s) (pins s) (objs s) (gc_active s) (gcsel s) (gcall s)
        (gc_cutoff s) (queries s) (dlog s) rl (qlog s).
 Definition with_register (s : st) (c : list (path * (Z * Z))) (ev ob : list path) : st :=
-  mkSt (now s) c ev (pending s) (disk s) (pins s) ob (gc_active s) (gcsel s) (gcall s)
+  mkSt (now s) c ev (pending s) (disk s) (psnap s) (pins s) ob (gc_active s) (gcsel s) (gcall s)
        (gc_cutoff s) (queries s) (dlog s) (rlog s) (qlog s).
 Definition with_gc (s : st) (pe : list (path * Z)) (ob : list path) (act : bool) (sel all : list path)
            (cut : Z) (dl : list delev) : st :=
-  mkSt (now s) (cat s) (ever s) pe (disk s) (pins s) ob act sel all cut (queries s) dl (rlog s) (qlog s).
-Definition with_disk (s : st) (d : list (path * Z)) : st :=
-  mkSt (now s) (cat s) (ever s) (pending s) d (pins s) (objs s) (gc_active s) (gcsel s) (gcall s)
+  mkSt (now s) (cat s) (ever s) pe (disk s) (psnap s) (pins s) ob act sel all cut (queries s) dl (rlog s) (qlog s).
+Definition with_disk (s : st) (d sn : list (path * Z)) : st :=
+  mkSt (now s) (cat s) (ever s) (pending s) d sn (pins s) (objs s) (gc_active s) (gcsel s) (gcall s)
        (gc_cutoff s) (queries s) (dlog s) (rlog s) (qlog s).
 Definition with_query (s : st) (pi : list path) (qs : list (N * qstate)) (ql : list qryev) : st :=
-  mkSt (now s) (cat s) (ever s) (pending s) (disk s) pi (objs s) (gc_active s) (gcsel s) (gcall s)
+  mkSt (now s) (cat s) (ever s) (pending s) (disk s) (psnap s) pi (objs s) (gc_active s) (gcsel s) (gcall s)
        (gc_cutoff s) qs (dlog s) (rlog s) ql.
 
 Definition del_events (t : Z) (pinned : list path) (ps : list path) : list delev :=
@@ -210,8 +215,9 @@ Definition step (c : gcfg) (s : st) (x : label) : st :=
       let ps := map fst sel in
       with_cat_sched s (cat_remove ps (cat s)) (ever s) (pending s ++ map (fun p => (p, now s)) ps)
                      (rev (map (fun '(p, (_, mx)) => mkRev p mx cutoff) sel) ++ rlog s)
-  | Persist => with_disk s (pending s)
-  | Restart => with_gc s [] (objs s) false [] [] (gc_cutoff s) (dlog s)
+  | PersistSnap => with_disk s (disk s) (pending s)
+  | PersistPut => with_disk s (psnap s) (psnap s)
+  | Restart => with_disk (with_gc s [] (objs s) false [] [] (gc_cutoff s) (dlog s)) (disk s) []
   | Load => with_gc s (load_merge (disk s) (pending s)) (objs s) (gc_active s) (gcsel s) (gcall s)
                     (gc_cutoff s) (dlog s)
   | QGet q a b =>
@@ -314,11 +320,12 @@ Definition is_split_gc (x : label) : bool :=
 
 (* ---------- composite driver steps (await granularity of run_compaction_cycle) ---------- *)
 (* after the last delete of a pass the task runs on, without any await on the
-   compactor's store handle, through the retain and enforce_retention *)
+   compactor's store handle, through the retain, enforce_retention and the
+   serialisation of the pending list; it parks at the PUT of those bytes *)
 Definition after_deletes (c : gcfg) (s : st) : st :=
   if gc_active s
   then match gcsel s with
-       | [] => step c (step c s GcEnd) Retention
+       | [] => step c (step c (step c s GcEnd) Retention) PersistSnap
        | _ => s
        end
   else s.
@@ -326,7 +333,7 @@ Definition after_deletes (c : gcfg) (s : st) : st :=
 (* start of a cycle up to its first store request *)
 Definition drv_begin (c : gcfg) (s : st) : st :=
   let s1 := step c s GcFilter in
-  if gc_active s1 then s1 else step c s1 Retention.
+  if gc_active s1 then s1 else step c (step c s1 Retention) PersistSnap.
 
 (* release one parked DELETE *)
 Definition drv_delete (c : gcfg) (s : st) (p : path) : st :=
@@ -335,7 +342,7 @@ Definition drv_delete (c : gcfg) (s : st) (p : path) : st :=
 (* let the cycle run to completion: remaining deletes, retain, retention, persist *)
 Definition drv_finish (c : gcfg) (s : st) : st :=
   let s1 := fold_left (fun a p => step c a (GcDelete p)) (gcsel s) s in
-  step c (after_deletes c s1) Persist.
+  step c (after_deletes c s1) PersistPut.
 
 (* compactor restart: new Compactor, `run` loads the file and starts its first cycle *)
 Definition drv_restart (c : gcfg) (s : st) : st :=
